@@ -18,8 +18,8 @@ ACT_FOLDER = "game/agent/actions/folder.py"
 
 # the methods whose logic the model transcribes (docstrings and sys_log calls removed before comparison)
 TRANSCRIBED = {
-    ("FileSystem", FS): ["__init__", "setup_for_episode", "create_folder", "delete_folder", "create_file", "get_file",
-                         "restore_folder", "access_file", "pre_timestep", "apply_timestep", "describe_state",
+    ("FileSystem", FS): ["__init__", "setup_for_episode", "create_folder", "create_file", "get_file",
+                         "access_file", "pre_timestep", "apply_timestep", "describe_state",
                          "copy_file", "move_file", "delete_file_by_id", "delete_folder_by_id", "get_folder_by_id", "scan"],
     # restore_file and add_file are tied semantically instead (extract/fsxlate.py, C15_gen_restore_file / C15_gen_add_file)
     ("Folder", FOLDER): ["get_file_by_id", "remove_file_by_id", "pre_timestep", "_scan_timestep", "scan", "repair", "corrupt", "remove_all_files",
